@@ -415,6 +415,13 @@ class G:
                 com = r.choice([" -- note", "  --x", " --! doc", "\t-- tail ; end process", " -- \"q\" 'c'"])
             if self.comments and r.random() < 0.08:
                 out.append(ind + r.choice(["-- own line comment", "--", "-- end if; begin", "---------------", "/* block */"]))
+            if self.comments and r.random() < 0.04:
+                # a block comment: 3-5 consecutive comment lines, short / punctuation-only headers and footers included
+                edge = ["---", "--=", "--+", "--", "--!", "--------------------", "--====", "-- x", "--|"]
+                out.append(ind + r.choice(edge))
+                for _ in range(r.randrange(1, 4)):
+                    out.append(ind + r.choice(["-- text of the block", "--", "--  indented text", "--| doc", "-- TODO: check"]))
+                out.append(ind + r.choice(edge))
             if self.style in ("oneline", "messy") and r.random() < (0.35 if self.style == "oneline" else 0.1) and not com and not text.rstrip().endswith(("--",)):
                 pending += text + " "
                 continue
